@@ -1,50 +1,101 @@
-"""Stream `legacy`: the real LegacyScheduler (mistral/services/legacy_scheduler.py) stepped at
-DB-call granularity against the small legacy model of Model/Sched.lean (`lStep`).
+"""Stream `legacy`: 1..3 REAL `LegacyScheduler` objects (mistral/services/legacy_scheduler.py, the
+scheduler of the default `scheduler_type = legacy`) over one in-memory sqlite, stepped at DB-call
+granularity against Model/SchedLegacy.lean (`lStep`, driver handler `sched.lrun`).
 
-One `_process_delayed_calls()` iteration per instance runs in a baton thread that is parked
-before `_invoke_calls` and before `delete_calls` (instance-level wrappers); `capture i` starts
-the iteration (the real `_capture_calls` transaction), `invoke i` / `delete i` resume it,
-`crash i` abandons it.  The scheduling transaction is handled as in sched_driver (really
-committed or rolled back at once; a committed row stays hidden until the `commit` step).
+The scheduler threads are never started; one `_process_delayed_calls()` iteration of an instance
+is executed piecewise:
 
-Monitor (statement only, where it applies to the legacy scheduler): never early, a
-rolled-back / uncommitted call never runs, at most once (unconditionally: there is no
-recapture), a committed call is never lost from the store before it ran.
+* `select i`   the real `_process_delayed_calls` runs up to and including the real
+               `get_delayed_calls_to_start(now+1s, batch_size)` of `_capture_calls`, whose answer
+               is stashed, and is aborted (`sd.AbortSelect`, a BaseException: the transaction of
+               `_capture_calls` is rolled back, nothing was written);
+* `capture i`  the real `_process_delayed_calls` runs again in a baton thread (`sd.Actor`) with
+               that stashed answer (a READ COMMITTED select followed later by the CAS updates):
+               the real CAS loop + commit of `_capture_calls`, `_prepare_calls`, and the thread is
+               parked INSIDE the first target call (before it logs), or finishes when nothing was
+               captured;
+* `invoke i`   the parked target call logs and returns; the real `_invoke_calls` loop goes on to
+               the next target call (parks there) or to `delete_calls` (instance-level wrapper,
+               parks before the real delete);
+* `delete i`   the real `delete_calls`, the iteration is over;
+* `crash i`    the baton thread is destroyed, the instance is dead.
+
+`scheduleBad` schedules a call whose target cannot be imported: the real `_prepare_calls` raises
+ImportError out of `_process_delayed_calls` after `_capture_calls` committed (expected exactly then;
+the batch stays processing=True, nothing is invoked or deleted, the instance stays alive).
+
+In `capture i` the stashed answer of the select is put into the session of the capture
+transaction with `session.merge(obj, load=False)` (no store access): oslo.db `update_on_match`
+merges its result into the object the select of the SAME session loaded.
+
+Transactions of the caller of `schedule()` as in sched_driver: really committed or rolled back at
+once; a committed row is moved to a side table until the `commit` step (READ COMMITTED).
+
+Monitor (statement only, on the real log / rows): never early; a call of a rolled-back or
+uncommitted transaction is never captured or invoked; invoked at most once (unconditionally:
+there is no recapture); captured at most once; a committed call is never lost from the store
+before it ran; has_scheduled_jobs(key, processing=False) is exactly "a pending row with that key
+exists"; and (closing phase) every committed call is eventually invoked while a live instance keeps
+polling.
 """
 import collections
 import datetime
+import sys
+import types
 
 from harness import sched_driver as sd
 
+TARGET_MOD = 'c13_legacy_target'
+KEYS = [1, 2]
+RKEY = {'k1': 1, 'k2': 2, 'k3': 3}
+PROCS = (None, False, True)
+CRASH_SIG = {'kind': 'legacy-captured-call-never-run', 'cause': 'capturer-crashed'}
+ABORT_SIG = {'kind': 'legacy-captured-call-never-run', 'cause': 'batch-aborted-by-unpreparable-call'}
+BAD_FUNC = 'no_such_function'
+
+
+class LInst(object):
+    def __init__(self, idx, sched):
+        self.idx = idx
+        self.alive = True
+        self.sched = sched
+        self.sel = None        # stashed answer of the select (list of DelayedCall objects)
+        self.actor = None      # the running iteration (parked at 'invoke' or 'delete')
+        self.ids = []          # ordinals captured by the running iteration, in order
+        self.done = 0          # how many of them have been invoked
+        self.at = None         # ordinal the parked target call is about
+
 
 class LWorld(object):
-    def __init__(self, n):
+    def __init__(self, n, batch=None):
         sd.World.boot()
         from oslo_config import cfg
         from oslo_utils import timeutils
         from mistral.services import legacy_scheduler
         self.timeutils = timeutils
+        self.CONF = cfg.CONF
+        self.batch = batch
+        self.CONF.set_override('batch_size', batch, 'scheduler')
         self.clock = 0
         self._set_clock()
         self._session_do(lambda ses: ses.query(self.models().DelayedCall).delete())
-        self.jobs = []
-        self.uuid_of = {}
-        self.hidden = {}
-        self.log = []
-        self.current = None
+        self.jobs = []           # ordinal -> {'sched_at','ra','key','tx','fate','state'}
+        self.uuids = []          # ordinal -> id of the row
+        self.ids = {}            # id -> ordinal
+        self.hidden = {}         # ordinal -> column values of a committed, not yet visible row
+        self.log = []            # ['invoked', j, clock, inst]
+        self.caps = []           # ['captured', j, clock, inst]
+        self.aborted = []        # [ids] of every batch whose _prepare_calls raised (un-importable target)
+        self.stats = collections.Counter()
+        self.problems = []
         self.insts = []
         for i in range(n):
-            s = legacy_scheduler.LegacyScheduler(cfg.CONF.scheduler)
-            inst = {'idx': i, 'alive': True, 'sched': s, 'actor': None, 'ids': []}
+            inst = LInst(i, legacy_scheduler.LegacyScheduler(cfg.CONF.scheduler))
             self._wrap(inst)
             self.insts.append(inst)
-        sd._install_target(self)
-        self.trace = self.log       # the shared target appends ['invoked', j, clock, inst]
+        _install_target(self)
 
-    @property
-    def current_inst(self):
-        return self.current
-
+    # ------------------------------------------------------------ plumbing
     @staticmethod
     def models():
         from mistral.db.v2.sqlalchemy import models
@@ -61,29 +112,42 @@ class LWorld(object):
 
     def close(self):
         for inst in self.insts:
-            if inst['actor']:
-                inst['actor'].destroy()
+            if inst.actor:
+                inst.actor.destroy()
+                inst.actor = None
         self.timeutils.clear_time_override()
+        self.CONF.clear_override('batch_size', 'scheduler')
+        mod = sys.modules.get(TARGET_MOD)
+        if mod is not None and getattr(mod, 'world', None) is self:
+            mod.world = None
+
+    def ordinal(self, call):
+        o = self.ids.get(getattr(call, 'id', None))
+        if o is None:
+            self.problems.append('the scheduler handled a delayed call the harness does not know')
+            return -1
+        return o
 
     def _wrap(self, inst):
-        s = inst['sched']
-        real_capture, real_invoke, real_delete = s._capture_calls, s._invoke_calls, s.delete_calls
+        """`_capture_calls` / `delete_calls` are staticmethods called through `self.`: instance
+        attributes take precedence."""
+        s = inst.sched
+        real_capture, real_delete = s._capture_calls, s.delete_calls
+        inst.real_capture = real_capture
         w = self
 
-        def capture(batch):
-            calls = real_capture(batch)
-            inst['ids'] = sorted(self.ordinal(c) for c in calls)
+        def capture(batch_size):
+            calls = real_capture(batch_size)
+            ids = [w.ordinal(c) for c in calls]
+            inst.ids = ids
+            inst.done = 0
+            for j in ids:
+                w.caps.append(['captured', j, w.clock, inst.idx])
+            if inst.sel is not None:
+                lost = len(inst.sel) - len(ids)
+                if lost > 0:
+                    w.stats['cas-lost'] += lost
             return calls
-
-        def invoke(prepared):
-            a = getattr(sd._TL, 'actor', None)
-            if a is not None:
-                a.park('invoke')
-            w.current = inst['idx']
-            try:
-                return real_invoke(prepared)
-            finally:
-                w.current = None
 
         def delete(calls):
             a = getattr(sd._TL, 'actor', None)
@@ -91,11 +155,9 @@ class LWorld(object):
                 a.park('delete')
             return real_delete(calls)
 
-        s._capture_calls, s._invoke_calls, s.delete_calls = capture, invoke, delete
+        s._capture_calls, s.delete_calls = capture, delete
 
-    def ordinal(self, call):
-        return call.method_arguments['j']
-
+    # ------------------------------------------------------------ steps
     def do(self, step):
         return getattr(self, 'st_' + step[0])(*step[1:])
 
@@ -103,38 +165,65 @@ class LWorld(object):
         self.clock += n
         self._set_clock()
 
-    def st_schedule(self, ra, tx, fate='commit'):
+    def st_scheduleBad(self, ra, key, tx, fate='commit'):
+        """a delayed call whose target cannot be imported: `_prepare_calls` raises ImportError"""
+        return self.st_schedule(ra, key, tx, fate, bad=True)
+
+    def st_schedule(self, ra, key, tx, fate='commit', bad=False):
         from mistral.db.v2 import api as db_api
         from mistral.scheduler import base as sb
         models = self.models()
         ordn = len(self.jobs)
-        job = sb.SchedulerJob(run_after=ra, func_name=sd.TARGET_MOD + '.target', func_args={'j': ordn}, key='k1')
+        job = sb.SchedulerJob(run_after=ra, func_name=TARGET_MOD + '.' + (BAD_FUNC if bad else 'target'),
+                              func_args={'j': ordn},
+                              key=sd.World.KEYS[key])
+        before = set(r.id for r in self._session_do(lambda ses: ses.query(models.DelayedCall).all()))
         try:
             with db_api.transaction():
-                self.insts[0]['sched'].schedule(job)     # schedule() only writes the row
+                self.insts[0].sched.schedule(job)     # schedule() only writes the row
                 if fate != 'commit':
                     raise sd.Rollback()
         except sd.Rollback:
             pass
-        self.jobs.append({'sched_at': self.clock, 'ra': ra, 'tx': tx, 'fate': fate, 'state': 'uncommitted'})
+        self.jobs.append({'sched_at': self.clock, 'ra': ra, 'key': key, 'tx': tx, 'fate': fate,
+                          'state': 'uncommitted', 'bad': bad})
+        new = [r for r in self._session_do(lambda ses: ses.query(models.DelayedCall).all())
+               if r.id not in before]
         if fate == 'commit':
+            if len(new) != 1:
+                self.problems.append('schedule() in a committed transaction wrote %d rows' % len(new))
+                self.uuids.append(None)
+                return
+            uuid = new[0].id
+            self.uuids.append(uuid)
+            self.ids[uuid] = ordn
+
             def hide(ses):
-                rows = [r for r in ses.query(models.DelayedCall).all() if r.method_arguments.get('j') == ordn]
-                vals = {c.name: getattr(rows[0], c.name) for c in rows[0].__table__.columns}
-                ses.delete(rows[0])
+                row = ses.query(models.DelayedCall).filter_by(id=uuid).one()
+                vals = {c.name: getattr(row, c.name) for c in row.__table__.columns}
+                ses.delete(row)
                 return vals
             self.hidden[ordn] = self._session_do(hide)
+        else:
+            self.uuids.append(None)
+            if new:
+                self.problems.append('schedule() in a rolled-back transaction left %d rows' % len(new))
 
     def _end(self, tx, outcome):
         models = self.models()
         for ordn, j in enumerate(self.jobs):
             if j['tx'] == tx and j['state'] == 'uncommitted':
-                if outcome == 'commit':
-                    vals = self.hidden.pop(ordn)
-                    self._session_do(lambda ses: ses.add(models.DelayedCall(**vals)))
+                if outcome == 'commit' and j['fate'] == 'commit':
+                    vals = self.hidden.pop(ordn, None)
+                    if vals is not None:
+                        self._session_do(lambda ses: ses.add(models.DelayedCall(**vals)))
                     j['state'] = 'committed'
-                else:
+                    j['committed_at'] = self.clock
+                elif outcome == 'rollback' and j['fate'] != 'commit':
                     j['state'] = 'rolledBack'
+                else:
+                    raise ValueError('step %s of tx %d contradicts the fate chosen at schedule time'
+                                     % (outcome, tx))
 
     def st_commit(self, tx):
         self._end(tx, 'commit')
@@ -142,23 +231,113 @@ class LWorld(object):
     def st_rollback(self, tx):
         self._end(tx, 'rollback')
 
-    def st_capture(self, i):
-        inst = self.insts[i]
-        if not inst['alive'] or inst['actor'] is not None:
+    def phase(self, inst):
+        if not inst.alive:
+            return 'dead'
+        if inst.actor is not None:
+            return 'busy'
+        return 'idle' if inst.sel is None else 'selected'
+
+    def st_select(self, i):
+        from mistral.db.v2 import api as db_api
+        if i >= len(self.insts):
             return
-        inst['ids'] = []
-        a = sd.Actor(inst['sched']._process_delayed_calls, inst, False)
-        a.start()
-        inst['actor'] = None if a.state == 'done' else a
+        inst = self.insts[i]
+        if self.phase(inst) != 'idle':
+            return
+        real = db_api.get_delayed_calls_to_start
+        got = {}
+
+        def select(*a, **k):
+            got['calls'] = real(*a, **k)
+            got['args'] = (a, k)
+            raise sd.AbortSelect()
+
+        db_api.get_delayed_calls_to_start = select
+        try:
+            inst.sched._process_delayed_calls()
+        except sd.AbortSelect:
+            pass
+        finally:
+            db_api.get_delayed_calls_to_start = real
+        if 'calls' not in got:
+            self.problems.append('_process_delayed_calls did not query the store')
+            got['calls'] = []
+        inst.sel = list(got['calls'])
+        inst.ids, inst.done = [], 0
+
+    def sel_ids(self, inst):
+        return [self.ordinal(c) for c in inst.sel]
+
+    def set_cands(self, i, order):
+        """Continue with the given (model) answer of the select: same execution_time values,
+        another order / choice among the ties."""
+        models = self.models()
+        inst = self.insts[i]
+        by = {self.ids[c.id]: c for c in inst.sel}
+        missing = [o for o in order if o not in by]
+        if missing:
+            def load(ses):
+                return ses.query(models.DelayedCall).filter(
+                    models.DelayedCall.id.in_([self.uuids[o] for o in missing])).all()
+            for c in self._session_do(load):
+                by[self.ids[c.id]] = c
+        inst.sel = [by[o] for o in order]
+
+    def st_capture(self, i):
+        from mistral.db.v2 import api as db_api
+        if i >= len(self.insts):
+            return
+        inst = self.insts[i]
+        if self.phase(inst) != 'selected':
+            return
+        stash = inst.sel
+        real = db_api.get_delayed_calls_to_start
+        inst.ids, inst.done, inst.at = [], 0, None
+        a = sd.Actor(inst.sched._process_delayed_calls, inst, False)
+
+        def stale(*x, **k):
+            # The rows as the select of THIS transaction returned them: the stashed objects are
+            # put into the identity map of the transaction's session without touching the store
+            # (update_on_match merges its result into the object the select loaded; without it
+            # the captured object would be a half-loaded one that cannot be used after commit).
+            from mistral.db.sqlalchemy import base as b
+            ses = b._get_thread_local_session()
+            return [ses.merge(c, load=False) for c in stash]
+
+        db_api.get_delayed_calls_to_start = stale
+        try:
+            a.start()
+        finally:
+            db_api.get_delayed_calls_to_start = real
+        inst.sel = None
+        inst.actor = a
+        self._after(inst)
+
+    def _after(self, inst):
+        a = inst.actor
+        if a is not None and a.state == 'done':
+            bad = [j for j in inst.ids if 0 <= j < len(self.jobs) and self.jobs[j]['bad']]
+            if isinstance(a.exc, ImportError) and bad and inst.done == 0 and a.label is None:
+                # `_prepare_calls` raised out of `_process_delayed_calls` (the real loop logs it and
+                # goes on): nothing of the batch was invoked, nothing deleted
+                self.aborted.append(list(inst.ids))
+                self.stats['batch-aborted'] += 1
+            elif a.exc is not None:
+                self.problems.append('the iteration of instance %d ended with %s: %s'
+                                     % (inst.idx, type(a.exc).__name__, str(a.exc)[:200]))
+            inst.actor = None
+            inst.ids, inst.done, inst.at = [], 0, None
 
     def _resume(self, i, label):
+        if i >= len(self.insts):
+            return
         inst = self.insts[i]
-        a = inst['actor']
-        if not inst['alive'] or a is None or a.label != label:
+        a = inst.actor
+        if not inst.alive or a is None or a.label != label:
             return
         a.resume()
-        if a.state == 'done':
-            inst['actor'] = None
+        self._after(inst)
 
     def st_invoke(self, i):
         self._resume(i, 'invoke')
@@ -167,137 +346,489 @@ class LWorld(object):
         self._resume(i, 'delete')
 
     def st_crash(self, i):
+        if i >= len(self.insts):
+            return
         inst = self.insts[i]
-        if inst['actor']:
-            inst['actor'].destroy()
-        inst['actor'] = None
-        inst['alive'] = False
+        if inst.actor:
+            inst.actor.destroy()
+        inst.actor = None
+        inst.sel = None
+        inst.ids, inst.done, inst.at = [], 0, None
+        inst.alive = False
 
+    # ------------------------------------------------------------ observation
     def rows(self):
+        """ordinal -> (execution_time, processing, key, bad target) of the rows visible in the store"""
         models = self.models()
-        return {r.method_arguments['j']: (sd.World.rel(r.execution_time), bool(r.processing))
-                for r in self._session_do(lambda ses: ses.query(models.DelayedCall).all())}
+        out = {}
+        for r in self._session_do(lambda ses: ses.query(models.DelayedCall).all()):
+            o = self.ids.get(r.id)
+            if o is None:
+                self.problems.append('a row the harness does not know is in delayed_calls_v2')
+                continue
+            out[o] = (sd.World.rel(r.execution_time), bool(r.processing), RKEY.get(r.key, r.key),
+                      r.target_method_name != TARGET_MOD + '.target')
+        return out
 
-    def observe(self):
-        rows = self.rows()
-        insts = []
-        for inst in self.insts:
-            a = inst['actor']
-            if a is None:
-                ph = ['idle']
-            else:
-                ph = ['captured' if a.label == 'invoke' else 'invoked', list(inst['ids'])]
-            insts.append([inst['alive'], ph])
+    def has_all(self, i=0):
+        """[[key, processing, has_scheduled_jobs(key=.., processing=..)]] for every combination,
+        asked inside one read-only transaction, as the engine calls it (see the comment in
+        sd.World.has); the object of a dead instance still answers, it only reads the store."""
+        from mistral.db.v2 import api as db_api
+        out = []
+        sched = self.insts[i].sched
+        try:
+            with db_api.transaction(read_only=True):
+                for k in [None] + KEYS:
+                    for p in PROCS:
+                        f = {}
+                        if k is not None:
+                            f['key'] = sd.World.KEYS[k]
+                        if p is not None:
+                            f['processing'] = p
+                        try:
+                            out.append([k, p, bool(sched.has_scheduled_jobs(**f))])
+                        except Exception as e:
+                            out.append([k, p, 'exception:' + type(e).__name__])
+        except Exception as e:
+            out.append(['transaction', None, 'exception:' + type(e).__name__])
+        return out
+
+    def inst_phase(self, inst):
+        if not inst.alive:
+            return ['idle']
+        a = inst.actor
+        if a is None:
+            return ['idle'] if inst.sel is None else ['selected', self.sel_ids(inst)]
+        if a.label == 'invoke':
+            return ['busy', list(inst.ids), list(inst.ids[inst.done:])]
+        if a.label == 'delete':
+            return ['busy', list(inst.ids), []]
+        return ['parked-at-' + str(a.label)]
+
+    def observe(self, rows=None, has=None):
+        rows = self.rows() if rows is None else rows
+        has = self.has_all() if has is None else has
         return {'clock': self.clock,
                 'rows': [list(rows[o]) if o in rows else None for o in range(len(self.jobs))],
-                'insts': insts,
-                'log': sorted([e[1], e[2], e[3]] for e in self.log)}
+                'insts': [[inst.alive, self.inst_phase(inst)] for inst in self.insts],
+                'log': [[e[1], e[2], e[3]] for e in self.log],
+                'caps': [[e[1], e[2], e[3]] for e in self.caps],
+                'has': has}
 
 
 def model_view(m):
+    """Project a model observation (Drv/Sched lstateJson) on what `LWorld.observe` reports."""
     return {'clock': m['clock'],
-            'rows': [[r[0], r[1]] if r[2] == 'committed' else None for r in m['rows']],
-            'insts': [[x[0], [x[1][0]] + ([sorted(x[1][1])] if len(x[1]) > 1 else [])] for x in m['insts']],
-            'log': sorted(m['log'])}
+            'rows': [[r[0], r[1], r[2], r[3]] if r[4] == 'committed' else None for r in m['rows']],
+            'insts': m['insts'], 'log': m['log'], 'caps': m['caps'], 'has': m['has']}
+
+
+def _install_target(world):
+    mod = sys.modules.get(TARGET_MOD)
+    if mod is None:
+        mod = types.ModuleType(TARGET_MOD)
+        sys.modules[TARGET_MOD] = mod
+
+    def target(j=None, **kw):
+        w = mod.world
+        a = getattr(sd._TL, 'actor', None)
+        inst = a.inst if a is not None else None
+        if inst is not None:
+            inst.at = j
+            if inst.done >= len(inst.ids) or inst.ids[inst.done] != j:
+                w.problems.append('instance %d invokes call %r, the next captured one is %r'
+                                  % (inst.idx, j, inst.ids[inst.done:inst.done + 1]))
+            a.park('invoke')
+        w.log.append(['invoked', j, w.clock, inst.idx if inst is not None else None])
+        if inst is not None:
+            inst.done += 1
+            inst.at = None
+
+    mod.target = target
+    mod.world = world
 
 
 def mstep(st):
-    return st[:3] if st[0] == 'schedule' else st
+    """model encoding of a harness step (the commit/rollback fate is harness-only)"""
+    return list(st[:4]) if st[0] in ('schedule', 'scheduleBad') else list(st)
 
 
-def run_case(ctx, n, steps, stream='legacy', compare=True):
-    from vlib import core
-    w = LWorld(n)
-    agree = True
-    try:
-        done = []
-        seen = 0
-        for st in steps:
-            done.append(st)
-            try:
-                w.do(st)
-            except Exception as e:
-                ctx.disagree(stream, {'n': n, 'steps': done}, 'no exception', '%s: %s' % (type(e).__name__, str(e)[:200]))
-                return w, False
-            if compare and agree:
-                m = ctx.driver().call('sched.lrun', {'n': n, 'steps': [mstep(s) for s in done]})[-1]
-                obs, mv = w.observe(), model_view(m)
-                if core.canon(obs) != core.canon(mv):
-                    agree = False
-                    ctx.disagree(stream, {'n': n, 'steps': list(done)},
-                                 {k: mv[k] for k in mv if core.canon(mv[k]) != core.canon(obs[k])},
-                                 {k: obs[k] for k in mv if core.canon(mv[k]) != core.canon(obs[k])})
-            # monitor
-            rep = {'kind': 'legacy', 'n': n, 'steps': list(done)}
-            for e in w.log[seen:]:
-                _, j, t, i = e
-                job = w.jobs[j]
-                if t < job['sched_at'] + job['ra']:
-                    ctx.violation('legacy: call %d invoked at %d before its time' % (j, t), rep,
-                                  {'kind': 'legacy-invoked-early'})
-                if job['state'] != 'committed':
-                    ctx.violation('legacy: call %d of a %s transaction was invoked' % (j, job['state']), rep,
-                                  {'kind': 'legacy-job-of-%s-transaction-invoked' % job['state']})
-            seen = len(w.log)
-            cnt = collections.Counter(e[1] for e in w.log)
-            if any(c > 1 for c in cnt.values()):
-                ctx.violation('legacy: a delayed call was invoked twice', rep, {'kind': 'legacy-invoked-twice'})
-            rows = w.rows()
-            for o, job in enumerate(w.jobs):
-                if job['state'] == 'committed' and o not in rows and cnt.get(o, 0) == 0:
-                    ctx.violation('legacy: committed call %d neither stored nor invoked' % o, rep,
-                                  {'kind': 'legacy-committed-job-lost'})
-        return w, agree
-    finally:
-        w.close()
+class LRunner(object):
+    def __init__(self, ctx, n, batch, stream='legacy', compare=True):
+        self.ctx = ctx
+        self.n = n
+        self.batch = batch
+        self.stream = stream
+        self.compare = compare
+        self.w = LWorld(n, batch)
+        self.steps = []
+        self.agree = True
+        self.hits = []
+        self.seen_log = 0
+        self.seen_caps = 0
+        self.mech = collections.Counter()
+        self.model = None
+        self.last_rows = None
+
+    def close(self):
+        self.w.close()
+
+    def replay_obj(self):
+        return {'kind': 'legacy', 'n': self.n, 'batch': self.batch, 'steps': [list(s) for s in self.steps]}
+
+    def model_state(self):
+        return self.ctx.driver().call('sched.lrun', {
+            'n': self.n, 'batch': self.batch, 'steps': [mstep(s) for s in self.steps],
+            'keys': KEYS, 'all': False})
+
+    def disagree(self, step, model, impl):
+        if self.agree:
+            self.agree = False
+            self.ctx.disagree(self.stream, {'n': self.n, 'batch': self.batch, 'steps': [list(s) for s in self.steps],
+                                            'at_step': len(self.steps) - 1, 'step': list(step)}, model, impl)
+
+    def hit(self, what, sig):
+        self.hits.append((what, sig))
+        self.ctx.violation('legacy: ' + what, self.replay_obj(), sig)
+
+    # ------------------------------------------------------------------ one step
+    def do(self, step):
+        from vlib import core
+        w = self.w
+        self.steps.append(list(step))
+        k = step[0]
+        if k == 'crash' and step[1] < len(w.insts):
+            inst = w.insts[step[1]]
+            if inst.alive and inst.actor is not None:
+                self.mech['crash-with-captured-work'] += 1
+                if inst.done < len(inst.ids):
+                    self.mech['crash-before-invocation'] += 1
+        if k == 'select' and step[1] < len(w.insts) and w.phase(w.insts[step[1]]) == 'idle':
+            if any(j['fate'] != 'commit' for j in w.jobs):
+                self.mech['select-with-rolled-back-call'] += 1
+            if any(j['state'] == 'uncommitted' and j['fate'] == 'commit' for j in w.jobs):
+                self.mech['select-with-uncommitted-call'] += 1
+        try:
+            w.do(step)
+        except Exception as e:   # the real code raised where the real loop would only log it
+            self.disagree(step, 'no exception', 'exception %s: %s' % (type(e).__name__, str(e)[:200]))
+            return False
+        if sum(1 for x in w.insts if w.phase(x) == 'selected') >= 2:
+            self.mech['two-instances-selected'] += 1
+        rows = w.rows()
+        self.last_rows = rows
+        has = w.has_all()
+        if self.compare and self.agree:
+            m = self.model_state()
+            self.model = m
+            if not isinstance(m, dict) or 'rows' not in m:
+                self.disagree(step, m, 'model driver refused the step list')
+                return False
+            if k == 'select':
+                self._ties(step[1], m)
+            obs = w.observe(rows, has)
+            mv = model_view(m)
+            if core.canon(obs) != core.canon(mv):
+                diff = [x for x in obs if core.canon(obs[x]) != core.canon(mv.get(x))]
+                self.disagree(step, {x: mv.get(x) for x in diff}, {x: obs[x] for x in diff})
+        if w.problems:
+            self.disagree(step, 'interpretable behaviour', list(w.problems))
+            w.problems = []
+        self.monitor(rows, has)
+        return True
+
+    def _ties(self, i, m):
+        """ORDER BY execution_time leaves ties unspecified: if the real answer differs from the
+        model's only by the order/choice among equal execution_time, continue with the model's."""
+        w = self.w
+        if i >= len(w.insts):
+            return
+        inst = w.insts[i]
+        if w.phase(inst) != 'selected':
+            return
+        mp = m['insts'][i][1]
+        if mp[0] != 'selected':
+            return
+        real = w.sel_ids(inst)
+        want = mp[1]
+        if real == want:
+            return
+        ea = {o: r[0] for o, r in enumerate(m['rows'])}
+        elig = set(e[1] for e in m['eligible'])
+        ok = (len(real) == len(want) and len(set(real)) == len(real) and
+              all(c in elig for c in real) and
+              [ea[c] for c in real] == [ea[c] for c in want])
+        if ok:
+            self.ctx.count(self.stream, 'select-tie-reordered')
+            w.set_cands(i, list(want))
+
+    # ------------------------------------------------------------------ monitor
+    def monitor(self, rows=None, has=None):
+        w = self.w
+        rows = w.rows() if rows is None else rows
+        has = w.has_all() if has is None else has
+        answer = {(x[0], x[1]): x[2] for x in has}
+        for e in w.log[self.seen_log:]:
+            _, j, t, i = e
+            if not isinstance(j, int) or j < 0 or j >= len(w.jobs):
+                self.hit('a call that was never scheduled was invoked (%r)' % (j,),
+                         {'kind': 'legacy-unscheduled-call-invoked'})
+                continue
+            job = w.jobs[j]
+            if t < job['sched_at'] + job['ra']:
+                self.hit('call %d scheduled at %d with run_after %d was invoked at %d'
+                         % (j, job['sched_at'], job['ra'], t), {'kind': 'legacy-invoked-early'})
+            if job['state'] != 'committed':
+                self.hit('call %d of a %s transaction was invoked' % (j, job['state']),
+                         {'kind': 'legacy-job-of-%s-transaction-invoked' % job['state']})
+        self.seen_log = len(w.log)
+        for e in w.caps[self.seen_caps:]:
+            _, j, t, i = e
+            if not isinstance(j, int) or j < 0 or j >= len(w.jobs):
+                continue
+            job = w.jobs[j]
+            if job['state'] != 'committed':
+                self.hit('call %d of a %s transaction was captured' % (j, job['state']),
+                         {'kind': 'legacy-job-of-%s-transaction-captured' % job['state']})
+        self.seen_caps = len(w.caps)
+        cnt = collections.Counter(e[1] for e in w.log)
+        if any(c > 1 for c in cnt.values()):
+            self.hit('delayed call(s) %s invoked more than once' % sorted(j for j, c in cnt.items() if c > 1),
+                     {'kind': 'legacy-invoked-twice'})
+        ccnt = collections.Counter(e[1] for e in w.caps)
+        if any(c > 1 for c in ccnt.values()):
+            self.hit('delayed call(s) %s captured more than once' % sorted(j for j, c in ccnt.items() if c > 1),
+                     {'kind': 'legacy-captured-twice'})
+        for o, job in enumerate(w.jobs):
+            if job['state'] == 'committed' and o not in rows and cnt.get(o, 0) == 0:
+                self.hit('committed call %d is neither stored nor invoked' % o,
+                         {'kind': 'legacy-committed-job-lost'})
+        for k in KEYS:
+            if any(j['state'] == 'uncommitted' and j['key'] == k for j in w.jobs):
+                continue
+            ans = answer.get((k, False))
+            truth = any(r[2] == k and r[1] is False for r in rows.values())
+            if ans is not truth:
+                self.hit('has_scheduled_jobs(key=k%d, processing=False) is %r, the store %s a pending call with '
+                         'that key' % (k, ans, 'has' if truth else 'has not'),
+                         {'kind': 'legacy-has-scheduled-jobs-wrong'})
+
+    # ------------------------------------------------------------------ closing phase
+    def finish_iteration(self, i):
+        """let live instance i finish whatever iteration it has in flight"""
+        w = self.w
+        inst = w.insts[i]
+        if w.phase(inst) == 'selected':
+            self.do(['capture', i])
+        guard = 0
+        while w.phase(inst) == 'busy' and guard < 40:
+            self.do(['invoke' if inst.actor.label == 'invoke' else 'delete', i])
+            guard += 1
+
+    def closing(self):
+        """Fairness: every open transaction ends, every live instance finishes its iteration and
+        a live instance keeps polling; then every committed call must have run (at least once /
+        crash recovery)."""
+        w = self.w
+        for tx in sorted(set(j['tx'] for j in w.jobs if j['state'] == 'uncommitted')):
+            fate = [j['fate'] for j in w.jobs if j['tx'] == tx and j['state'] == 'uncommitted'][0]
+            self.do(['commit' if fate == 'commit' else 'rollback', tx])
+        live = [x.idx for x in w.insts if x.alive]
+        if not live:
+            return False
+        for i in live:
+            self.finish_iteration(i)
+        i = live[0]
+        for _ in range(2 * len(w.jobs) + 2):
+            self.do(['tick', 5])
+            before = len(w.caps)
+            self.do(['select', i])
+            self.finish_iteration(i)
+            if len(w.caps) == before:
+                break
+        cnt = collections.Counter(e[1] for e in w.log)
+        for o, j in enumerate(w.jobs):
+            if j['state'] != 'committed' or cnt.get(o, 0):
+                continue
+            dead = [e[3] for e in w.caps if e[1] == o and not w.insts[e[3]].alive]
+            if j['bad']:
+                continue       # its target cannot be imported: nobody can invoke it
+            batch = [b for b in w.aborted if o in b]
+            if batch:
+                self.mech['valid-call-stranded-by-aborted-batch'] += 1
+                self.hit('committed call %d was captured in one batch with call(s) %s whose target cannot be '
+                         'imported: _prepare_calls raised, the whole batch stays processing=True for ever and '
+                         'call %d is never run although live instance %d kept polling'
+                         % (o, [x for x in batch[0] if w.jobs[x]['bad']], o, i), dict(ABORT_SIG))
+            elif dead:
+                self.mech['captured-call-never-run'] += 1
+                self.hit('committed call %d was captured by instance %d which died; it stays processing=True '
+                         'for ever and is never run although live instance %d kept polling' % (o, dead[0], i),
+                         dict(CRASH_SIG))
+            else:
+                self.hit('committed call %d was never invoked although live instance %d kept polling' % (o, i),
+                         {'kind': 'legacy-captured-call-never-run', 'cause': 'unknown'})
+        return True
+
+    def nontrivial(self):
+        m = self.mech
+        return bool(m['valid-call-stranded-by-aborted-batch'] or
+                    self.w.log and (self.w.stats['cas-lost'] or m['crash-with-captured-work'] or
+                                    m['two-instances-selected'] or m['select-with-rolled-back-call'] or
+                                    self.w.stats['batch-aborted']))
+
+    def report(self, closed):
+        ctx, st = self.ctx, self.stream
+        for s in self.steps:
+            ctx.count(st, 'step:' + s[0])
+        mech = collections.Counter(self.mech)
+        mech['cas-lost'] = self.w.stats['cas-lost']
+        mech['batch-aborted-by-unpreparable-call'] = self.w.stats['batch-aborted']
+        mech['invocation'] = len(self.w.log)
+        for k, v in mech.items():
+            if v:
+                ctx.count(st, 'mech:' + k)
+        ctx.count(st, 'instances:%d' % self.n)
+        ctx.count(st, 'batch:%s' % self.batch)
+        ctx.count(st, 'closing:' + ('polled' if closed else 'nobody-alive'))
+        ctx.evaluated(st, [self.n, self.batch, self.steps], nontrivial=self.nontrivial())
 
 
-def random_steps(rng, n):
-    steps = []
-    jobs = 0
+# ---------------------------------------------------------------------------------------------
+# generation
+# ---------------------------------------------------------------------------------------------
+
+def choose_step(rng, r, max_calls, next_tx):
+    """one step among the steps enabled in the real state (plus a few disabled ones)"""
+    w = r.w
+    cand = []
     open_tx = {}
-    phase = ['idle'] * n
-    for _ in range(rng.randrange(12, 30)):
-        c = []
-        if jobs < 4:
-            c.append((2, 'schedule'))
-        if open_tx:
-            c.append((3, 'end'))
-        c += [(3, 'tick'), (3, 'capture'), (4, 'invoke'), (4, 'delete'), (0.3, 'crash')]
-        k = rng.choices([x[1] for x in c], [x[0] for x in c])[0]
-        if k == 'schedule':
-            fate = 'commit' if rng.random() < 0.75 else 'rollback'
-            steps.append(['schedule', rng.choice([0, 0, 1, 2]), jobs, fate])
-            open_tx[jobs] = fate
-            jobs += 1
-        elif k == 'end':
-            tx = rng.choice(sorted(open_tx))
-            steps.append(['commit' if open_tx.pop(tx) == 'commit' else 'rollback', tx])
-        elif k == 'tick':
-            steps.append(['tick', rng.choice([1, 1, 2])])
+    for j in w.jobs:
+        if j['state'] == 'uncommitted':
+            open_tx[j['tx']] = j['fate']
+    if len(w.jobs) < max_calls:
+        fate = 'commit' if rng.random() < 0.75 else 'rollback'
+        same = [t for t, f in open_tx.items() if f == fate]
+        tx = rng.choice(same) if same and rng.random() < 0.25 else next_tx
+        cand.append((2.5, ['scheduleBad' if rng.random() < 0.1 else 'schedule', rng.choice([0, 0, 1, 2]),
+                           rng.choice(KEYS), tx, fate]))
+    for tx, fate in sorted(open_tx.items()):
+        cand.append((3.0, ['commit' if fate == 'commit' else 'rollback', tx]))
+    cand.append((1.3, ['tick', rng.choice([1, 1, 2])]))
+    vis = [x for x in (r.last_rows or {}).values() if x[1] is False]
+    due = any(x[0] <= w.clock for x in vis)
+    selected = sum(1 for x in w.insts if w.phase(x) == 'selected')
+    alive = sum(1 for x in w.insts if x.alive)
+    for inst in w.insts:
+        i = inst.idx
+        ph = w.phase(inst)
+        if ph == 'dead':
+            if rng.random() < 0.1:
+                cand.append((0.2, [rng.choice(['select', 'capture', 'invoke', 'delete', 'crash']), i]))
+            continue
+        if ph == 'idle':
+            cand.append(((2.5 if due else 0.7 if vis else 0.3) * (1.6 if selected else 1.0), ['select', i]))
+            if rng.random() < 0.1:
+                cand.append((0.2, [rng.choice(['capture', 'invoke', 'delete']), i]))
+        elif ph == 'selected':
+            cand.append((2.5, ['capture', i]))
+            if rng.random() < 0.1:
+                cand.append((0.2, [rng.choice(['select', 'invoke', 'delete']), i]))
         else:
-            steps.append([k, rng.randrange(n)])
-    return steps
+            lab = inst.actor.label
+            cand.append((4.0, ['invoke' if lab == 'invoke' else 'delete', i]))
+            if rng.random() < 0.1:
+                cand.append((0.2, ['delete' if lab == 'invoke' else 'invoke', i]))
+        cand.append(((1.0 if ph == 'busy' else 0.08) * (1.0 if alive > 1 else 0.4), ['crash', i]))
+    tot = sum(c[0] for c in cand)
+    x = rng.random() * tot
+    for wgt, st in cand:
+        x -= wgt
+        if x <= 0:
+            return st
+    return cand[-1][1]
 
 
-def correspond(ctx):
-    fixed = [
-        (2, [['schedule', 1, 0, 'commit'], ['commit', 0], ['capture', 0], ['tick', 1], ['capture', 0], ['capture', 1],
-             ['invoke', 0], ['delete', 0], ['capture', 1]]),
-        (2, [['schedule', 0, 0, 'rollback'], ['schedule', 0, 1, 'commit'], ['capture', 0], ['rollback', 0], ['commit', 1],
-             ['capture', 1], ['crash', 1], ['tick', 5], ['capture', 0]]),
-    ]
-    cases = fixed + [(ctx.rng.choice([1, 2, 2, 3]), None) for _ in range(ctx.n(25, 600))]
-    for n, steps in cases:
-        if steps is None:
-            steps = random_steps(ctx.rng, n)
-        w, agree = run_case(ctx, n, steps)
+def random_case(ctx, rng, stream='legacy'):
+    n = rng.choice([1, 2, 2, 3])
+    batch = rng.choice([None, None, 1, 2])
+    max_calls = rng.choice([2, 3, 4, 4])
+    length = rng.randrange(15, 36)
+    r = LRunner(ctx, n, batch, stream)
+    try:
+        next_tx = 0
+        for _ in range(length):
+            st = choose_step(rng, r, max_calls, next_tx)
+            if st[0] in ('schedule', 'scheduleBad') and st[3] == next_tx:
+                next_tx += 1
+            r.do(st)
+        closed = r.closing()
+        r.report(closed)
+        if r.agree and rng.random() < 0.04:
+            ctx.sample({'stream': stream, 'n': n, 'batch': batch, 'steps': r.steps[:14], 'log': r.w.log[:6]})
+        return r
+    finally:
+        r.close()
+
+
+CORPUS = [
+    # (a) the witness of legacy_crash_recovery_full_fails: the capturer dies, nobody ever runs the call
+    (2, None, [['schedule', 0, 1, 0, 'commit'], ['commit', 0], ['select', 0], ['capture', 0], ['crash', 0],
+               ['tick', 100], ['select', 1], ['capture', 1]]),
+    # (b) two instances select the same call, both capture: only one CAS wins
+    (2, None, [['schedule', 0, 1, 0, 'commit'], ['commit', 0], ['select', 0], ['select', 1], ['capture', 1],
+               ['capture', 0], ['invoke', 1], ['delete', 1], ['select', 0], ['capture', 0]]),
+    # (c) a rolled-back call is never selected, neither before nor after the rollback
+    (2, None, [['schedule', 0, 1, 0, 'rollback'], ['schedule', 0, 2, 1, 'commit'], ['select', 0], ['capture', 0],
+               ['rollback', 0], ['commit', 1], ['tick', 1], ['select', 1], ['capture', 1], ['invoke', 1],
+               ['delete', 1], ['select', 0], ['capture', 0]]),
+    # (d) batch_size 1 with two due calls (the earlier one first), then the second one
+    (1, 1, [['schedule', 1, 1, 0, 'commit'], ['schedule', 0, 2, 1, 'commit'], ['commit', 0], ['commit', 1],
+            ['tick', 1], ['select', 0], ['capture', 0], ['invoke', 0], ['delete', 0], ['select', 0],
+            ['capture', 0], ['invoke', 0], ['delete', 0]]),
+    # not yet due / due exactly at execution_time (time_filter = now + 1s, strict <)
+    (1, None, [['schedule', 2, 1, 0, 'commit'], ['commit', 0], ['tick', 1], ['select', 0], ['capture', 0],
+               ['tick', 1], ['select', 0], ['capture', 0], ['invoke', 0], ['delete', 0]]),
+    # a call whose target cannot be imported strands the valid call captured in the same batch
+    # (witness of legacy_bad_target_strands_batch)
+    (1, None, [['schedule', 0, 1, 0, 'commit'], ['scheduleBad', 0, 1, 1, 'commit'], ['commit', 0], ['commit', 1],
+               ['select', 0], ['capture', 0], ['tick', 5], ['select', 0], ['capture', 0]]),
+    # two calls captured by one iteration, crash between the two invocations
+    (2, None, [['schedule', 0, 1, 0, 'commit'], ['schedule', 0, 1, 0, 'commit'], ['commit', 0], ['select', 0],
+               ['capture', 0], ['invoke', 0], ['crash', 0], ['select', 1], ['capture', 1]]),
+]
+
+
+def run_fixed(ctx, case, stream='legacy'):
+    n, batch, steps = case
+    r = LRunner(ctx, n, batch, stream)
+    try:
         for s in steps:
-            ctx.count('legacy', 'step:' + s[0])
-        ctx.evaluated('legacy', [n, steps], nontrivial=bool(w.log))
+            r.do(s)
+        closed = r.closing()
+        r.report(closed)
+        return r
+    finally:
+        r.close()
+
+
+def correspond(ctx, stream='legacy'):
+    for case in CORPUS:
+        run_fixed(ctx, case, stream)
+    for _ in range(ctx.n(60, 400)):
+        random_case(ctx, ctx.rng, stream)
 
 
 def replay(ctx, rep):
     r = rep['replay']
-    w, _ = run_case(ctx, r['n'], r['steps'], stream='replay', compare=False)
-    print('replay(legacy): %d steps, log=%s' % (len(r['steps']), w.log))
+    run = LRunner(ctx, r['n'], r.get('batch'), 'replay', compare=False)
+    try:
+        for s in r['steps']:
+            run.do(s)
+        run.closing()
+        print('replay(legacy): %d steps (+closing phase) on %d real LegacyScheduler instance(s), batch_size=%s; '
+              'log=%s; caps=%s; monitor hits=%s' % (len(r['steps']), r['n'], r.get('batch'), run.w.log,
+                                                      run.w.caps, [h[0] for h in run.hits]))
+    finally:
+        run.close()
